@@ -139,6 +139,7 @@ type c08Inv struct {
 	readAll  bool
 	postEOF  []error // results of reads attempted after the first io.EOF
 	firstErr error
+	retErr   error // the handler returned this error (of its own write) without reading on
 }
 
 // c08Gen: what the generator has to know about the session.
@@ -343,11 +344,21 @@ func runC08(rc *RC) {
 		switch wr := ch.Int("handler", 6); wr {
 		case 4, 5:
 			st := el("", "message", "id", fmt.Sprintf("w%d", len(invs)), "to", "x@example.net")
-			t.EncodeToken(st)
+			werr := t.EncodeToken(st)
 			if wr == 4 {
-				t.EncodeToken(st.End())
+				if err := t.EncodeToken(st.End()); werr == nil {
+					werr = err
+				}
 			} else {
 				rc.S.Probes["handler-partial-write"]++
+			}
+			// a handler that gives up when it cannot reply (the local side closed its output meanwhile): it returns the
+			// error of its write, having read nothing of its element. That ends Serve with an error; in no case is the
+			// unread rest of the element taken for top-level input.
+			if werr != nil && ch.Chance("handler", 1, 2) {
+				inv.retErr = werr
+				rc.S.Probes["handler-returns-write-error"]++
+				return werr
 			}
 		}
 		limit := -1
@@ -426,6 +437,10 @@ func runC08(rc *RC) {
 		}
 		if it.kind == "elem" && it.el.Start.Name.Space != nsStream {
 			expect = append(expect, it)
+			if k := len(expect) - 1; k < len(invs) && invs[k].retErr != nil {
+				termKind = "handler-error"
+				break
+			}
 			if it.forbidden >= 0 {
 				for _, lt := range items[ii+1:] {
 					if lt.kind == "elem" && lt.el.Start.Name.Space != nsStream {
@@ -466,6 +481,8 @@ func runC08(rc *RC) {
 			rc.Check("C08.c5", "close-not-nil", e.ServeErr == nil, "peer's closing tag: Serve returned %v, want nil", e.ServeErr)
 		case "stream-elem:error":
 			rc.Check("C08.c5", "stream-error-not-returned", errors.As(e.ServeErr, &se) && se.Err == "conflict", "received stream error: Serve returned %#v, want the stream.Error conflict", e.ServeErr)
+		case "handler-error":
+			rc.Check("C08.c5", "handler-error-not-returned", e.ServeErr != nil, "a handler returned %v: Serve returned nil", invs[len(expect)-1].retErr)
 		case "eof", "syntax":
 			// connection ended / malformed: Serve returned, any result
 		case "nested-forbidden":
